@@ -21,6 +21,10 @@ CHECKS = {
    text="Bounded symbolic model checking of trackWrite/getRangeToRead with go-immutable-radix run from source: all sequences of 3 (thorough 4) writes with offset 0..200, length 1..55 and all probe offsets/lengths, plus one inductive step from an arbitrary valid pre-state of up to 3 disjoint ranges (covers histories of any length within that footprint); oracle = union of written ranges; also that the marker representation invariant is preserved.",
    note="Trusted: go/ssa, gosmt interpreter (natively cross-validated), sync.Mutex model. Outside: offsets >= 256 (multi-byte key divergence in the radix tree), negative offsets, zero-length writes, more than 3 pre-existing ranges in the step harness.",
    design="DESIGN.md §6 C22"),
+ "C11": dict(
+   text="Bounded symbolic model checking of the real diamond merge (Diamond.mergeSplits with its merger goroutine, fileIndex.Download/unpack/downloadAll/downloadIndex, mergeEntryToFilePacked, GenerateConflictPath/GenerateCheckpointPath, go-immutable-radix from source) against a reference written from the statement: 2 splits x 2 paths with symbolic presence, symbolic 1-byte content hashes and symbolic distinct upload seconds, and 3 splits x 1 path (split k uploaded at second k), in all 4 conflict modes and for every arrival order of the split index files - the main tree holds exactly the uploaded paths with the latest version of each, conflict/checkpoint mode files every other distinct version under .conflicts|.checkpoints/<uploading split>/<path> with that split's content and nothing else, ignore mode adds nothing, forbid mode fails iff two splits disagree on a path, and the HasConflicts/HasCheckpoints flags match. Thorough adds 3 splits x 2 paths with one index file per (split, path). Known finding C11-F1.",
+   note="Trusted: go/ssa, gosmt interpreter (natively cross-validated), cooperative goroutine/channel model with file-list download concurrency 1 (arrival order = the solver-chosen permutation), yaml.v2 as round-tripping opaque documents, in-memory metadata store. Outside: more than 3 splits, equal upload times, the single-split == plain upload clause, fileIndex.pack's time stamping, implCommit around the merge.",
+   design="DESIGN.md §6 C11"),
  "C13": dict(
    text="Bounded symbolic model checking of the purge safety kernels on the real code: checkAndDeleteKey as one step from an arbitrary key state (indexed or not, KV error, blob update time vs index time symbolic, 0..3 transient GetAttr failures, dry-run) - a blob is deleted only if unindexed and its update time was actually read and is not after the index time; the uploader's final loop + chunkUploader + dbReader with a chunk write that fails after consuming any number of bytes and is retried - every key marked uploaded is in a stored chunk whenever the uploader reports success; bundleKeys from a KV pre-state holding a root with or without its leaves - every key of a scanned entry ends up indexed (known finding C13-F3).",
    note="Trusted: go/ssa, gosmt interpreter (natively cross-validated), in-memory store/KV models, backoff.Retry = at most 3 attempts, yaml.v2 as round-tripping opaque documents, tickers never fire. Outside: the PurgeBuildReverseIndex/PurgeDeleteUnused drivers as a whole (errgroup fan-out over repos, monitors), pebble/badger themselves, uploads racing with the two phases, list-page faults.",
